@@ -155,6 +155,7 @@ func TestVerifC17AuthzV1(t *testing.T) {
 					verd["keyfound"] = ok
 					verd["ownkey"] = ownKeys[info.Sigs[0].Kid]
 					if ok {
+						verd["fits"] = tokenV2.VAlgFitsKey(info.Sigs[0].Alg, key)
 						tok, err := jwt.ParseString(v.Tok, jwt.WithKey(jwa.SignatureAlgorithm(info.Sigs[0].Alg), key), jwt.WithVerify(true), jwt.WithAcceptableSkew(srv.clockSkew))
 						verd["verified"] = err == nil
 						if err == nil {
